@@ -278,10 +278,10 @@ func (g *c07gen) source(top *lty, space string) string {
 		for i, m := range s.members {
 			b.WriteString("  ")
 			if m.align != 0 {
-				fmt.Fprintf(&b, "@align(%d) ", m.align)
+				fmt.Fprintf(&b, "@align(%s) ", g.c.attrNum(int(m.align)))
 			}
 			if m.size != 0 {
-				fmt.Fprintf(&b, "@size(%d) ", m.size)
+				fmt.Fprintf(&b, "@size(%s) ", g.c.attrNum(int(m.size)))
 			}
 			fmt.Fprintf(&b, "m%d: %s,\n", i, m.ty.wgsl())
 		}
